@@ -28,8 +28,8 @@ ASSUMPTIONS = ['the configured serial writer does not return an error (WriteSB p
                'values put on the bus are bytes and addresses are 16 bits wide (Go types uint8 / uint16)',
                'image lengths fit a Go int']
 ALLOWED_AXIOMS = []
-KEEP_PREFIX = 2
-MAX_REPORT = 6
+KEEP_PREFIX = 5
+MAX_REPORT = 3
 
 
 # ---------------------------------------------------------------- (a) hostile images
@@ -297,6 +297,42 @@ def post_construction_panic(impl):
     return None
 
 
+def impl_only(lines, tag='c11_shrink'):
+    """run one case on the implementation runner alone; returns its output lines"""
+    import verifkit
+    path = '%s/scripts/%s.txt' % (verifkit.BUILD, tag)
+    verifkit.write_script(path, [('x', lines)])
+    rc, out, err = verifkit.run_runner(verifkit.BUILD + '/impl_runner', path)
+    cs, _ = verifkit.split_cases(out)
+    return cs.get('x', [])
+
+
+def shrink_panic(lines, budget=200):
+    """greedy line removal that keeps a post-construction PANIC on the implementation"""
+    keep = 0
+    while keep < len(lines) and (lines[keep] == 'mayexit' or lines[keep].startswith('safe.mark') or
+                                 lines[keep].split()[0] in CONSTRUCTORS or lines[keep] == 'safe.ok'):
+        keep += 1
+    lines = list(lines)
+    n = 0
+    chunk = max(1, (len(lines) - keep) // 2)
+    while chunk >= 1 and n < budget:
+        i = keep
+        changed = False
+        while i < len(lines) and n < budget:
+            cand = lines[:i] + lines[i + chunk:]
+            n += 1
+            if post_construction_panic(impl_only(cand)) is not None:
+                lines = cand
+                changed = True
+            else:
+                i += chunk
+        if chunk == 1 and not changed:
+            break
+        chunk = chunk // 2 if chunk > 1 else (1 if changed else 0)
+    return lines
+
+
 def extra(check, impl_cases, model_cases, cases):
     """implementation judged on its own: no PANIC after construction (also when the model predicts the same panic)."""
     out = []
@@ -307,6 +343,11 @@ def extra(check, impl_cases, model_cases, cases):
         p = post_construction_panic(impl)
         if p is None:
             continue
-        out.append(dict(case=cid, script=lines, impl=impl[:p + 1][-8:], model=(model_cases.get(cid) or [])[:p + 1][-8:],
-                        verdict='PANIC after a successful construction (the model predicts it too): C11 violated by %s' % impl[p]))
+        if len(out) < 2:
+            small = shrink_panic(lines)
+            si = impl_only(small)
+        else:
+            small, si = lines, impl[:p + 1][-8:]
+        out.append(dict(case=cid, script=small, impl=si, model=(model_cases.get(cid) or [])[:p + 1][-8:],
+                        verdict='PANIC after a successful construction (the regenerated model predicts it too): C11 violated by %s' % impl[p]))
     return out
